@@ -160,7 +160,7 @@ Proof.
   set (prB := mkPr (lexdecls b) []).
   destruct (L_enter a ((fr, pr) :: rest) false prB A) as (a1 & H1 & A1 & El & En).
   { intros y _ []. }
-  set (B0 := mkF (anext a) false [] [] O) in *.
+  set (B0 := mkF (anext a) false [] [] O O) in *.
   destruct (IHb a1 B0 prB ((fr, pr) :: rest) A1 Hndb) as (a2 & B' & z1 & R2 & A2 & G2 & P1b & P2b & P3b & P4b & F2 & N2).
   { intros y Hy. split; [exact Hy|intros []]. }
   { intros y Hy. cbn [var_ok fisfunc B0]. split.
@@ -252,7 +252,7 @@ Proof.
   { unfold pnames. cbn [pvar plex prF]. rewrite <- app_assoc. reflexivity. }
   destruct (L_enter a ((fr, pr) :: rest) true prF A) as (a1 & H1 & A1 & El1 & En1).
   { intros y Hy Hi. cbn [pvar prF] in Hi. apply in_app_iff in Hi. destruct Hi as [Hi|Hi]; [apply (Hlh y Hy Hi)|apply (Hlv y Hy Hi)]. }
-  set (F0 := mkF (anext a) true [] [] O) in *.
+  set (F0 := mkF (anext a) true [] [] O O) in *.
   (* the parameter list *)
   destruct (IHps a1 F0 prF ((fr, pr) :: rest) A1) as (a2 & F2 & z2 & R2 & A2 & G2 & _ & _ & P3p & P4p & Fp & Np).
   { rewrite Epl. constructor. } { rewrite Epl. intros y []. } { rewrite Epv. intros y []. } { exact Hndp. }
@@ -411,7 +411,7 @@ Proof.
   set (prC := mkPr (headdecls hd ++ lexdecls b) []).
   destruct (L_enter a ((fr, pr) :: rest) false prC A) as (a1 & H1 & A1 & El1 & En1).
   { intros y _ []. }
-  set (C0 := mkF (anext a) false [] [] O) in *.
+  set (C0 := mkF (anext a) false [] [] O O) in *.
   destruct (run_catch_params (headdecls hd) a1 C0 prC ((fr, pr) :: rest) A1 Hndp) as (a2 & C2 & R2 & A2 & E1 & E2 & E3 & E4 & En2 & Fp).
   { intros y Hy. split; [cbn [plex prC]; apply in_app_iff; left; exact Hy|intros []]. }
   cbn [fid fisfunc C0] in E1, E2. cbn [dnames fdecl C0 map app] in E3. cbn [fund C0] in E4.
